@@ -179,3 +179,74 @@ macro_rules! dataset_insert_all {
 dataset_insert_all!(c15_ld_insert_all, GenericLightDataset<VTI>, PAny, PAny, PAny, PAny);
 dataset_insert_all!(c15_fd_insert_all_o, GenericFastDataset<VTI>, PAny, PAny, PConst(any_t()), PAny);
 dataset_insert_all!(c15_fd_insert_all_pg, GenericFastDataset<VTI>, PAny, PConst(any_t()), PAny, GConst(any_g()));
+
+// remove_all: K symbolic insertions first, then a faulty stream of K symbolic removals
+pub fn reference_remove(it: &TIter, m: &mut Model) -> (usize, u8) {
+    let mut count = 0;
+    let mut i = 0;
+    while i < K {
+        if i == it.fault {
+            return (count, 1);
+        }
+        let q = it.items[i];
+        if m.get(q) {
+            m.set(q, false);
+            count += 1;
+        }
+        i += 1;
+    }
+    (count, 0)
+}
+
+#[cfg(kani)]
+#[kani::proof]
+#[kani::unwind(4)]
+pub fn c15_lg_remove_all() {
+    let mut g = <GenericLightGraph<VTI>>::new();
+    let mut m = Model::new();
+    let mut i = 0;
+    while i < K {
+        let mut q = any_q();
+        q.g = 0;
+        gr_apply(&mut g, &mut m, true, q);
+        i += 1;
+    }
+    let src = any_titer(true);
+    let (ecount, eout) = reference_remove(&src, &mut m);
+    let r = g.remove_all(src);
+    kani::cover!(eout == 1 && ecount >= 1, "source fault after an effective removal");
+    kani::cover!(eout == 0 && ecount == K, "all items removed");
+    match r {
+        Ok(n) => assert!(eout == 0 && n == ecount, "remove_all: wrong count or a fault was swallowed"),
+        Err(SourceError(SrcErr(c))) => assert!(eout == 1, "source error reported although the source did not fail first"),
+        Err(SinkError(_)) => assert!(false, "sink error although the store cannot fail on removal"),
+    }
+    gr_query!(g, &m, PAny, PAny, PAny);
+    std::mem::forget(g);
+}
+
+#[cfg(kani)]
+#[kani::proof]
+#[kani::unwind(4)]
+pub fn c15_ld_remove_all() {
+    let mut d = <GenericLightDataset<VTI>>::new();
+    let mut m = Model::new();
+    let mut i = 0;
+    while i < K {
+        let q = any_q();
+        ds_apply(&mut d, &mut m, true, q);
+        i += 1;
+    }
+    let src = any_titer(false);
+    let (ecount, eout) = reference_remove(&src, &mut m);
+    let r = d.remove_all(QIter(src));
+    kani::cover!(eout == 1 && ecount >= 1, "source fault after an effective removal");
+    kani::cover!(eout == 0 && ecount == K, "all items removed");
+    match r {
+        Ok(n) => assert!(eout == 0 && n == ecount, "remove_all: wrong count or a fault was swallowed"),
+        Err(SourceError(SrcErr(c))) => assert!(eout == 1, "source error reported although the source did not fail first"),
+        Err(SinkError(_)) => assert!(false, "sink error although the store cannot fail on removal"),
+    }
+    ds_query!(d, &m, PAny, PAny, PAny, PAny);
+    std::mem::forget(d);
+}
